@@ -14,6 +14,13 @@ Fixpoint tags_eqb (a b : list string) : bool :=
   | _, _ => false
   end.
 
+Definition opt_str_eqb (a b : option string) : bool :=
+  match a, b with
+  | None, None => true
+  | Some x, Some y => String.eqb x y
+  | _, _ => false
+  end.
+
 Fixpoint ty_eqb (a b : ty) : bool :=
   match a, b with
   | TDyn, TDyn | TNum, TNum | TStr, TStr | TBool, TBool => true
@@ -21,7 +28,7 @@ Fixpoint ty_eqb (a b : ty) : bool :=
   | TFun x1 x2, TFun y1 y2 => ty_eqb x1 y1 && ty_eqb x2 y2
   | TRec r, TRec s => rows_eqb r s
   | TDict x, TDict y => ty_eqb x y
-  | TEnum x, TEnum y => tags_eqb x y
+  | TEnum x, TEnum y => erows_eqb x y
   | TVar n, TVar m => Nat.eqb n m
   | TForall x, TForall y => ty_eqb x y
   | _, _ => false
@@ -30,6 +37,13 @@ with rows_eqb (r s : rows) : bool :=
   match r, s with
   | RNil, RNil => true
   | RCons f t r', RCons g u s' => String.eqb f g && ty_eqb t u && rows_eqb r' s'
+  | _, _ => false
+  end
+with erows_eqb (r s : erows) : bool :=
+  match r, s with
+  | ENil, ENil => true
+  | EBare t r', EBare u s' => String.eqb t u && erows_eqb r' s'
+  | EArg t A r', EArg u B s' => String.eqb t u && ty_eqb A B && erows_eqb r' s'
   | _, _ => false
   end.
 
@@ -67,8 +81,9 @@ Inductive atm :=
 | AArr (T : ty) (es : list atm)
 | ARec (fs : list (string * atm))
 | AProj (e : atm) (f : string)
-| ATag (t : string) (tags : list string)
-| AMatch (e : atm) (T : ty) (bs : list (string * atm)) (d : option atm)   (* T: the result type *)
+| ATag (t : string) (r : erows)                 (* the enum type the tag is used at *)
+| AVariant (t : string) (e : atm) (r : erows)
+| AMatch (e : atm) (T : ty) (bs : list (string * option string * atm)) (d : option atm)   (* T: the result type *)
 | APrim (o : prim) (insts : list ty)
 | AAnnT (e : atm) (T : ty)
 | AUntyped (u : tm)
@@ -89,6 +104,7 @@ Fixpoint erase (a : atm) : tm :=
   | ARec fs => Rec (map (fun fe => (fst fe, erase (snd fe))) fs)
   | AProj e f => Proj (erase e) f
   | ATag t _ => Tag t
+  | AVariant t e _ => Variant t (erase e)
   | AMatch e _ bs d => Match (erase e) (map (fun b => (fst b, erase (snd b))) bs)
                          (match d with Some b => Some (erase b) | None => None end)
   | APrim o _ => Prim o
@@ -112,6 +128,25 @@ Fixpoint shift_ctx_n (k : nat) (G : ctx) : ctx :=
 
 Fixpoint foralls (k : nat) (T : ty) : ty :=
   match k with 0 => T | S k' => TForall (foralls k' T) end.
+
+(* every row of [e] (looked up in the whole type [r], so that shadowed rows do not count) has an arm
+   of the right shape *)
+Fixpoint exhaustive (r e : erows) (bs : list (string * option string * unit)) : bool :=
+  match e with
+  | ENil => true
+  | EBare t e' =>
+      (match erows_lookup t r with
+       | Some p => match find_branch t (match p with Some _ => true | None => false end) bs with
+                   | Some _ => true | None => false end
+       | None => true
+       end) && exhaustive r e' bs
+  | EArg t _ e' =>
+      (match erows_lookup t r with
+       | Some p => match find_branch t (match p with Some _ => true | None => false end) bs with
+                   | Some _ => true | None => false end
+       | None => true
+       end) && exhaustive r e' bs
+  end.
 
 Section Infer.
   Variable Sg : sigma.
@@ -164,25 +199,37 @@ Section Infer.
                    | Some (TRec r) => rows_lookup f r
                    | _ => None
                    end
-    | ATag t tags => if existsb (String.eqb t) tags then Some (TEnum tags) else None
+    | ATag t r => match erows_lookup t r with Some None => Some (TEnum r) | _ => None end
+    | AVariant t e r =>
+        match erows_lookup t r, infer G e with
+        | Some (Some A), Some A' => if ty_eqb A A' then Some (TEnum r) else None
+        | _, _ => None
+        end
     | AMatch e T bs d =>
         match infer G e with
-        | Some (TEnum tags) =>
-            if (fix all (bs : list (string * atm)) : bool :=
+        | Some (TEnum r) =>
+            if (fix all (bs : list (string * option string * atm)) : bool :=
                   match bs with
                   | [] => true
-                  | (_, b) :: bs' => match infer G b with
-                                     | Some T' => ty_eqb T T' && all bs'
-                                     | None => false
-                                     end
+                  | (t, None, b) :: bs' => match infer G b with
+                                           | Some T' => ty_eqb T T' && all bs'
+                                           | None => false
+                                           end
+                  | (t, Some x, b) :: bs' =>
+                      match erows_lookup t r with
+                      | Some (Some A) => match infer ((x, A) :: G) b with
+                                         | Some T' => ty_eqb T T' && all bs'
+                                         | None => false
+                                         end
+                      | _ => false
+                      end
                   end) bs
             then match d with
                  | Some b => match infer G b with
                              | Some T' => if ty_eqb T T' then Some T else None
                              | None => None
                              end
-                 | None => if forallb (fun t => existsb (fun b => String.eqb t (fst b)) bs) tags
-                           then Some T else None
+                 | None => if exhaustive r r (map (fun b => (fst b, tt)) bs) then Some T else None
                  end
             else None
         | _ => None
